@@ -683,13 +683,13 @@ func init() {
 	vk.Register(&vk.Spec{
 		ID:          "C16",
 		Level:       "exploration",
-		Rule:        "rounds of 6..16 clients x 10..24 steps on the real packet handler with metrics = tee(recorder, real Prometheus collectors): datagrams of unique sizes (valid with 0..2 replies, wrong key / garbage on live associations, private/loopback destination, bad address), oversized replies (65460..65507 bytes: send or pack fails), datagrams from endpoints the client never addressed, injected outbound write errors on every other socket; short timeout so all associations expire before the audit; per-datagram report sequence vs the send log, replies vs datagrams received by clients, reads on the association socket (hook H2) vs reports, conservation vs target sockets, gathered families vs recorder sums",
+		Rule:        "rounds of 6..16 clients x 10..24 steps on the real packet handler (every other round built and entered through NewShadowsocksService/HandlePacket as the binary does) with metrics = tee(recorder, real Prometheus collectors): datagrams of unique sizes (valid with 0..2 replies, wrong key / garbage (also shorter than any valid datagram) on live associations, private/loopback destination, bad address), oversized replies (65460..65507 bytes: send or pack fails), datagrams from endpoints the client never addressed, injected outbound write errors on every other socket; short timeout so all associations expire before the audit; per-datagram report sequence vs the send log, replies vs datagrams received by clients, reads on the association socket (hook H2) vs reports, conservation vs target sockets, gathered families vs recorder sums",
 		Assumptions: []string{"a valid datagram that does not reach its target within 2 s is classed as a (possibly injected) write failure; its report may say OK only if the kernel accepted the write"},
 		Batches:     func(t string) int { return map[string]int{"quick": 4, "thorough": 16}[t] },
 		Parallel:    func(t string) int { return 4 },
 		Timeout:     func(t string) time.Duration { return 25 * time.Minute },
 		Run: func(c *vk.Ctx) {
-			for _, s := range []string{"client_datagram_reports_checked", "reply_reports_checked", "audits_passed", "failed_reply_reports", "oversized_replies_sent", "dns_single_query_clients", "expiry_cycles_reported", "datagrams_from_unaddressed_endpoints", "socket_reads_vs_reports_checked", "oversized_reply_sizes_reported_exactly", "largest_client_datagrams_reported_exactly_v4", "largest_client_datagrams_reported_exactly_v6", "rounds_with_an_empty_key_id"} {
+			for _, s := range []string{"client_datagram_reports_checked", "reply_reports_checked", "audits_passed", "failed_reply_reports", "oversized_replies_sent", "dns_single_query_clients", "expiry_cycles_reported", "datagrams_from_unaddressed_endpoints", "socket_reads_vs_reports_checked", "oversized_reply_sizes_reported_exactly", "largest_client_datagrams_reported_exactly_v4", "largest_client_datagrams_reported_exactly_v6", "rounds_with_an_empty_key_id", "rounds_through_the_service_wrapper"} {
 				c.Require(s)
 			}
 			c16Run(c)
